@@ -447,6 +447,40 @@ func runC16(c *rt.Ctx) {
 		tripleHistories(c, steps)
 	}
 
+	// a megabyte or more already in the buffer (a log being built, a document): output caps and block sizes that count
+	// the bytes that were there before; every formatter, a few values each
+	c.Parallel("megabyte-prefixes", 0, func(w *rt.W) {
+		lens := []int{1<<20 - 3, 1 << 20, 1<<20 + 5, 3<<20 + 1}
+		for li := w.Shard; li < len(lens); li += w.NShards {
+			prefix := []byte(strings.Repeat("vol. I ", lens[li]/7+1)[:lens[li]])
+			for fi := range fs[:5] {
+				f := &fs[fi]
+				for vi := 0; vi < f.nValues; vi += 1 + f.nValues/6 {
+					for _, flag := range []int{0, f.nFlags - 1} {
+						ref0, err := f.call(nil, vi, flag)
+						if err != nil {
+							continue
+						}
+						for _, spare := range []int{0, len(ref0), 4096} {
+							buf := append(make([]byte, 0, len(prefix)+spare), prefix...)
+							out, err := f.call(buf, vi, flag)
+							w.Eval(1)
+							if err != nil || len(out) != len(prefix)+len(ref0) || !bytes.Equal(out[len(prefix):], ref0) || !bytes.Equal(out[:len(prefix)], prefix) {
+								tail := out
+								if len(tail) > 40 {
+									tail = tail[len(tail)-40:]
+								}
+								w.Fail("result-behind-megabyte-prefix-"+f.name, "appendmb", rt.Args("formatter", f.name, "vi", vi, "flag", flag, "prefix", fmt.Sprintf("%d bytes of 'vol. I '", len(prefix)), "spare", spare, "value", f.describe(vi, flag)), fmt.Sprintf("%d bytes ending %q err=%v", len(out), tail, err), fmt.Sprintf("%d bytes ending %q", len(prefix)+len(ref0), ref0), "formatting behind a prefix of a megabyte or more must return prefix ++ format(nil)")
+							}
+						}
+					}
+				}
+			}
+			w.ClassN("megabyte-prefix", 1)
+		}
+	})
+	c.Require("megabyte-prefix", 4)
+
 	// very long results behind a prefix: numerals of several megabytes (block-wise writers copy from positions
 	// computed without the prefix), a few flags, prefixes and capacities each
 	c.Parallel("long-roman-results", 0, func(w *rt.W) {
